@@ -219,44 +219,64 @@ Proof.
     apply existsb_exists. exists (k, v). split; [assumption|cbn; apply str_eqb_refl].
 Qed.
 
-Lemma cmp_items_complete items oc :
-  (forall k v, In (k, v) items ->
-     exists dc v', oc = Some dc /\ sassoc k dc = Some v' /\ pval_eqb v v' = true) ->
-  cmp_items items oc = Accept.
+Lemma cmp_items_complete items dc :
+  (forall k v, In (k, v) items -> exists v', sassoc k dc = Some v' /\ pval_eqb v v' = true) ->
+  cmp_items items dc = Accept.
 Proof.
   induction items as [|[k v] items IH]; intro H; cbn; [reflexivity|].
-  destruct (H k v (or_introl eq_refl)) as [dc [v' [-> [Hs He]]]]. rewrite Hs, He. cbn.
+  destruct (H k v (or_introl eq_refl)) as [v' [Hs He]]. rewrite Hs, He. cbn.
   apply IH. intros k0 v0 Hin. apply H. right. assumption.
 Qed.
 
-Lemma cmp_props_complete po : forall x pc,
-  forallb keys_nodup po = true ->
+Lemma sassoc_has_key {k d} {v : pval} : sassoc k d = Some v -> has_key k d = true.
+Proof. unfold has_key. intros ->. reflexivity. Qed.
+
+Lemma cmp_props_complete (po : list pdict) : forall pc : list pdict,
+  forallb keys_nodup po = true -> length po = length pc ->
   (forall j d k v, nth_error po j = Some d -> sassoc k d = Some v ->
-     exists d' v', nth_error pc (x + j) = Some d' /\ sassoc k d' = Some v' /\ pval_eqb v v' = true) ->
-  cmp_props x po pc = Accept.
+     exists d' v', nth_error pc j = Some d' /\ sassoc k d' = Some v' /\ pval_eqb v v' = true) ->
+  (forall j (d' : pdict) k v', nth_error pc j = Some d' -> sassoc k d' = Some v' ->
+     exists d v, nth_error po j = Some d /\ sassoc k d = Some v) ->
+  cmp_props po pc = Accept.
 Proof.
-  induction po as [|d po IH]; intros x pc Hk H; cbn; [reflexivity|].
-  cbn in Hk. apply andb_true_iff in Hk as [Hk1 Hk2].
-  rewrite cmp_items_complete.
-  - cbn. apply IH; [assumption|]. intros j d0 k v Hj Hs.
-    destruct (H (S j) d0 k v Hj Hs) as [d' [v' Hx]]. exists d', v'.
-    replace (S x + j) with (x + S j) by lia. assumption.
+  induction po as [|d po IH]; intros pc Hk Hl H H'; [reflexivity|].
+  destruct pc as [|c pc]; [discriminate|].
+  cbn in Hk. apply andb_true_iff in Hk as [Hk1 Hk2]. cbn [cmp_props].
+  replace (keys_eqb d c) with true.
+  2:{ symmetry. unfold keys_eqb. apply andb_true_iff. split; apply forallb_forall; intros [k v] Hin; cbn.
+      - destruct (H 0 d k v eq_refl (keys_nodup_sassoc d Hk1 k v Hin)) as [d' [v' [Hn [Hs _]]]].
+        cbn in Hn. inversion Hn; subst d'. exact (sassoc_has_key Hs).
+      - pose proof (in_has_key (k, v) c Hin) as Hh. cbn in Hh.
+        destruct (has_key_sassoc Hh) as [v0 Hv0].
+        destruct (H' 0 c k v0 eq_refl Hv0) as [d0 [v1 [Hn Hs]]].
+        cbn in Hn. inversion Hn; subst d0. exact (sassoc_has_key Hs). }
+  cbn [check seq]. rewrite cmp_items_complete.
+  - cbn [seq]. apply IH; [assumption|cbn in Hl; lia| |].
+    + intros j d0 k v Hj Hs. apply (H (S j) d0 k v Hj Hs).
+    + intros j d' k v' Hj Hs. apply (H' (S j) d' k v' Hj Hs).
   - intros k v Hin. destruct (H 0 d k v eq_refl (keys_nodup_sassoc d Hk1 k v Hin)) as [d' [v' [Hn Hx]]].
-    rewrite Nat.add_0_r in Hn. exists d', v'. auto.
+    cbn in Hn. inversion Hn; subst d'. exists v'. assumption.
 Qed.
 
-Lemma cmp_inst_complete o c : props_ok o -> inst_rel props_sub o c ->
+Lemma cmp_inst_complete o c : props_ok o -> inst_rel props_eq o c ->
   cmp_inst (Some o) (Some c) = Accept.
 Proof.
-  unfold props_ok, cmp_inst. intros Hk [H1 [H2 [H3 [H4 H5]]]]. cbn [oi_name oi_oid].
+  unfold props_ok, cmp_inst. intros Hk [H1 [H2 [H3 [Hl [[H4 H5] [H6 H7]]]]]]. cbn [oi_name oi_oid].
   rewrite <- H1, <- H2, <- H3. rewrite !oname_eqb_refl, cmp_ref_refl. cbn.
-  destruct (i_props o) as [po|]; [|reflexivity].
-  destruct (i_props c) as [pc|]; [|exfalso; apply H4; [discriminate|reflexivity]].
-  apply cmp_props_complete; [assumption|]. intros j d k v Hj Hs.
-  destruct (H5 j k v) as [v' [Hp He]]; [cbn; rewrite Hj; assumption|].
-  cbn in Hp. destruct (nth_error pc j) as [d'|] eqn:Ed; [|discriminate].
-  exists d', v'. auto.
+  destruct (i_props o) as [po|], (i_props c) as [pc|]; try discriminate Hl; [|reflexivity].
+  cbn in Hl. inversion Hl as [Hlen]. rewrite Hlen, Nat.eqb_refl. cbn [check seq].
+  apply cmp_props_complete; [assumption|assumption| |].
+  - intros j d k v Hj Hs.
+    destruct (H5 j k v) as [v' [Hp He]]; [cbn; rewrite Hj; assumption|].
+    cbn in Hp. destruct (nth_error pc j) as [d'|] eqn:Ed; [|discriminate].
+    exists d', v'. auto.
+  - intros j d' k v' Hj Hs.
+    assert (Hq : prop_at (Some pc) j k = Some v') by (unfold prop_at; rewrite Hj; exact Hs).
+    destruct (H7 j k v' Hq) as [v [Hp _]].
+    cbn in Hp. destruct (nth_error po j) as [d|] eqn:Ed; [|discriminate].
+    exists d, v. auto.
 Qed.
+
 
 (* ---------- assignment instances: the same multiset of width fields ---------- *)
 Definition cnt (k : str) (d : list (str * nat)) : nat :=
@@ -372,7 +392,7 @@ Qed.
 
 (* ---------- definitions, libraries, netlists ---------- *)
 Lemma cmp_def_complete lo o c : wf_def o = true -> wf_def c = true -> dom (d_insts o) ->
-  defn_rel props_sub WR o c -> cmp_def lo lo o c = Accept.
+  defn_rel props_eq WR o c -> cmp_def lo lo o c = Accept.
 Proof.
   intros Hwo Hwc Hdom [H1 [H2 [H3 [H4 H5]]]]. apply wf_def_unpack in Hwo, Hwc.
   pose proof (asg_ok_all o Hwo) as Hao. pose proof (asg_ok_all c Hwc) as Hac.
@@ -389,7 +409,7 @@ Proof.
   2:{ intros x y Hx _ Hr. apply cmp_cable_complete; try assumption.
       pose proof (wd_wc o Hwo) as Hw. rewrite forallb_forall in Hw. apply Hw. assumption. }
   cbn [seq].
-  rewrite (cmp_each_complete i_name is_asg_inst true _ (inst_rel props_sub));
+  rewrite (cmp_each_complete i_name is_asg_inst true _ (inst_rel props_eq));
     [|apply (wd_ni c Hwc)|assumption|intros x y [G _]; exact G|].
   2:{ intros x y Hx _ Hr. apply cmp_inst_complete; [|assumption].
       apply wf_inst_props_ok. apply (wd_wi o Hwo). assumption. }
@@ -399,19 +419,19 @@ Qed.
 
 Lemma cmp_lib_complete o c : wf_lib o = true -> wf_lib c = true ->
   (forall d, In d (l_defs o) -> dom (d_insts d)) ->
-  lib_rel props_sub WR o c -> cmp_lib o c = Accept.
+  lib_rel props_eq WR o c -> cmp_lib o c = Accept.
 Proof.
   unfold wf_lib. intros Hwo Hwc Hdom [H1 [H2 H3]].
   apply andb_true_iff in Hwo as [_ Hwo]. apply andb_true_iff in Hwc as [Hnc Hwc].
   rewrite forallb_forall in Hwo, Hwc.
   unfold cmp_lib. rewrite <- H1, <- H2. rewrite !oname_eqb_refl.
   rewrite (sib_equiv_length _ _ _ H3), Nat.eqb_refl. cbn [check seq].
-  apply (cmp_each_complete d_name no_skip false _ (defn_rel props_sub WR));
+  apply (cmp_each_complete d_name no_skip false _ (defn_rel props_eq WR));
     [assumption|assumption|intros x y [G _]; exact G|].
   intros x y Hx Hy Hr. apply cmp_def_complete; [apply Hwo; assumption|apply Hwc; assumption|apply Hdom; assumption|assumption].
 Qed.
 
-Lemma cmp_top_complete ta tb : wf_top ta = true -> top_rel props_sub ta tb ->
+Lemma cmp_top_complete ta tb : wf_top ta = true -> top_rel props_eq ta tb ->
   match ta, tb with None, None => Accept | Some _, _ | _, Some _ => cmp_inst ta tb end = Accept.
 Proof.
   destruct ta as [i|], tb as [j|]; cbn [top_rel]; intros Hw H; try contradiction; [|reflexivity].
@@ -421,7 +441,7 @@ Qed.
 
 Theorem cmp_run_complete_gen a b : wf_named a -> wf_named b ->
   (forall l d, In l (n_libs a) -> In d (l_defs l) -> dom (d_insts d)) ->
-  nv_rel props_sub WR a b -> cmp_run a b = Accept.
+  nv_rel props_eq WR a b -> cmp_run a b = Accept.
 Proof.
   unfold wf_named, wf_namedb. intros Hwa Hwb Hdom [H1 [H2 [H3 H4]]].
   apply andb_true_iff in Hwa as [Hwa Hla]. apply andb_true_iff in Hwa as [Hta _].
@@ -433,7 +453,7 @@ Proof.
   2:{ symmetry. pose proof (cmp_top_complete _ _ Hta H3) as G.
       destruct (n_top a), (n_top b); exact G. }
   cbn [seq].
-  apply (cmp_each_complete l_name no_skip false _ (lib_rel props_sub WR));
+  apply (cmp_each_complete l_name no_skip false _ (lib_rel props_eq WR));
     [assumption|assumption|intros x y [G _]; exact G|].
   intros x y Hx Hy Hr. apply cmp_lib_complete; [apply Hla; assumption|apply Hlb; assumption| |assumption].
   intros d Hd. apply (Hdom x d); assumption.
@@ -441,14 +461,14 @@ Qed.
 End Complete.
 
 (* COMPLETENESS, pins in the same order (assignment-style names allowed) *)
-Theorem cmp_run_complete a b : wf_named a -> wf_named b -> nv_covered a b -> cmp_run a b = Accept.
+Theorem cmp_run_complete a b : wf_named a -> wf_named b -> nv_equiv_ord a b -> cmp_run a b = Accept.
 Proof.
   intros Ha Hb H. apply (cmp_run_complete_gen eq (fun _ => True)); try assumption; [|auto].
   intros x io ic wo wc Hio _ Hra Hw <-. apply cmp_wire_complete_ord; assumption.
 Qed.
 
 (* COMPLETENESS, pins as a set *)
-Theorem cmp_run_complete_set a b : wf_named a -> wf_named b -> no_asg a -> nv_covered_set a b ->
+Theorem cmp_run_complete_set a b : wf_named a -> wf_named b -> no_asg a -> nv_equiv a b ->
   cmp_run a b = Accept.
 Proof.
   intros Ha Hb Hna H. apply (cmp_run_complete_gen wire_perm not_asg); try assumption.
@@ -457,47 +477,18 @@ Proof.
     rewrite forallb_forall in Hna. specialize (Hna l Hl). rewrite forallb_forall in Hna. apply Hna. assumption.
 Qed.
 
-Theorem compare_complete_covered a b : wf_named a -> wf_named b -> nv_covered a b -> compare a b = true.
-Proof. intros. apply compare_accept. apply cmp_run_complete; assumption. Qed.
-
-Theorem compare_complete_covered_set a b : wf_named a -> wf_named b -> no_asg a -> nv_covered_set a b ->
-  compare a b = true.
-Proof. intros. apply compare_accept. apply cmp_run_complete_set; assumption. Qed.
-
-(* equivalent (same properties both ways) is a special case of covered *)
-Theorem equiv_covered_gen WR a b : nv_rel props_eq WR a b -> nv_rel props_sub WR a b.
-Proof.
-  intros [H1 [H2 [H3 H4]]]. split; [assumption|]. split; [assumption|]. split.
-  - destruct (n_top a), (n_top b); cbn in *; try assumption.
-    destruct H3 as [G1 [G2 [G3 [G4 _]]]]. split; [assumption|]. split; [assumption|]. split; assumption.
-  - eapply sib_equiv_impl_in; [|exact H4]. cbn.
-    intros la lb _ _ [L1 [L2 L3]]. split; [assumption|]. split; [assumption|].
-    eapply sib_equiv_impl_in; [|exact L3]. cbn.
-    intros da db _ _ [D1 [D2 [D3 [D4 D5]]]].
-    split; [assumption|]. split; [assumption|]. split; [assumption|]. split; [assumption|].
-    eapply sib_equiv_impl_in; [|exact D5]. cbn.
-    intros ia ib _ _ [I1 [I2 [I3 [I4 _]]]]. split; [assumption|]. split; [assumption|]. split; assumption.
-Qed.
-
-Theorem equiv_ord_covered a b : nv_equiv_ord a b -> nv_covered a b.
-Proof. apply equiv_covered_gen. Qed.
-
-Theorem equiv_covered_set a b : nv_equiv a b -> nv_covered_set a b.
-Proof. apply equiv_covered_gen. Qed.
-
 Theorem compare_complete a b : wf_named a -> wf_named b -> nv_equiv_ord a b -> compare a b = true.
-Proof. intros Ha Hb H. apply compare_complete_covered; [assumption|assumption|]. apply equiv_ord_covered. assumption. Qed.
+Proof. intros. apply compare_accept. apply cmp_run_complete; assumption. Qed.
 
 (* the same connectivity with the pins of the wires listed in any order is accepted *)
 Theorem compare_complete_set a b : wf_named a -> wf_named b -> no_asg a -> nv_equiv a b -> compare a b = true.
-Proof.
-  intros Ha Hb Hna H. apply compare_complete_covered_set; [assumption|assumption|assumption|].
-  apply equiv_covered_set. assumption.
-Qed.
+Proof. intros. apply compare_accept. apply cmp_run_complete_set; assumption. Qed.
 
-(* the exact characterisation of what the comparer decides on named netlists *)
-Theorem compare_iff_covered a b : wf_named a -> wf_named b -> no_asg a ->
-  (compare a b = true <-> nv_covered_set a b).
+(* the exact characterisation of what the comparer decides on named netlists: structural
+   equivalence (before the repair of compare_instances: nv_covered_set, properties that only b
+   has were not seen) *)
+Theorem compare_iff_equiv a b : wf_named a -> wf_named b -> no_asg a ->
+  (compare a b = true <-> nv_equiv a b).
 Proof.
-  intros Ha Hb Hna. split; [apply compare_sound_covered; assumption|apply compare_complete_covered_set; assumption].
+  intros Ha Hb Hna. split; [apply compare_sound; assumption|apply compare_complete_set; assumption].
 Qed.
